@@ -19,6 +19,7 @@ Decided:
  R7 Drop disables what was enabled: for every driver whose Drop calls Transport::queue_unset, the set of queue indices
     it unsets equals the set of indices its constructor created queues for (loop ranges with constant bounds are
     expanded); a queue left enabled keeps pointing at memory that is freed right afterwards.
+ R6 driver-owned buffers parked in driver state are released only after their completion was consumed (C04.P8).
 Not decided: "every k" is not enumerated - R3/R4 make the statement independent of k.
 """
 from .common import *
